@@ -278,6 +278,20 @@ def challenge_failures_answered(ctx):
     cls = prog.cls(K)
     io_methods = {name for name, fi in cls.methods.items()
                   if _does_file_io(fi.node)}
+    # a helper that calls one of them can fail in the same ways
+    grew = True
+    while grew:
+        grew = False
+        for name, fi in cls.methods.items():
+            if name in io_methods or name.startswith('_auth_'):
+                continue
+            if any(isinstance(n, ast.Call) and
+                   isinstance(n.func, ast.Attribute) and
+                   isinstance(n.func.value, ast.Name) and
+                   n.func.value.id == 'self' and n.func.attr in io_methods
+                   for n in ast.walk(fi.node)):
+                io_methods.add(name)
+                grew = True
     n = 0
     for fi in cls.methods.values():
         if not fi.node.name.startswith('_auth_'):
